@@ -147,9 +147,7 @@ func drawC02(rt *rapid.T) interface{} {
 						r.Keys = append(r.Keys, k)
 					}
 				}
-				if len(r.Keys) == 0 {
-					r.Keys = []int{pool[0]}
-				}
+				// (an empty list is a duplicate-free list too: locking nothing must be a no-op)
 				sort.Ints(r.Keys)
 			} else {
 				r.Keys = []int{rapid.SampledFrom(pool).Draw(rt, "key")}
